@@ -31,8 +31,8 @@ ASSUMPTIONS = ['default column names (the function hard-codes cost / date / peri
                'scale decreases on some analysed day (then first-difference bounds must cross); tails=1 with level < 0.5 is the '
                'known-finding key one-sided-level-below-half']
 EXHAUSTIVE = {'quick': False, 'thorough': False}
-MINIMA = {'quick': {'refits': 120, 'reports_ok': 500, 'dates_checked': 10000, 'outside_period_cases': 80, 'distinct_nontrivial': 500},
-          'thorough': {'refits': 2000, 'reports_ok': 8000, 'dates_checked': 150000, 'outside_period_cases': 1200, 'distinct_nontrivial': 8000}}
+MINIMA = {'quick': {'degenerate_cost_reports': 15, 'refits': 120, 'reports_ok': 500, 'dates_checked': 10000, 'outside_period_cases': 80, 'distinct_nontrivial': 500},
+          'thorough': {'degenerate_cost_reports': 250, 'refits': 2000, 'reports_ok': 8000, 'dates_checked': 150000, 'outside_period_cases': 1200, 'distinct_nontrivial': 8000}}
 N = {'quick': 1000, 'thorough': 14000}
 
 
@@ -52,7 +52,7 @@ def tot(exp, col, periods):
 def run_case(spec):
   r, g = util.rngs(PROP, spec['seed'], spec['idx'])
   mod = bootstrap.mm('tbr_iroas')
-  scenario = r.choice(['fixed', 'variable'])
+  scenario = r.choice(['fixed', 'variable', 'fixed', 'variable', 'treatment_pre_only'])
   metric = r.choice(['tbr_response', 'tbr_response', 'tbr_cost'])
   extras = set()
   if r.random() < 0.2:
@@ -95,8 +95,9 @@ def run_case(spec):
   d_pre, x_pre, y_pre = tot(exp, col, (0,))
   d_an, x_an, y_an = tot(exp, col, (1, 2))
   fixed_cost_branch = scenario == 'fixed' and metric == 'tbr_cost'
+  degenerate_cost = scenario == 'treatment_pre_only' and metric == 'tbr_cost'   # control never spends
   ref = None
-  if not fixed_cost_branch:
+  if not fixed_cost_branch and not degenerate_cost:
     ref = tbrref.Ref(x_pre, y_pre, x_an, y_an)
   out = util.call(model.estimate_pointwise_and_cumulative_effect, metric, level, tails)
   counters['reports'] += 1
@@ -106,6 +107,9 @@ def run_case(spec):
     mech = 'report-raises:%s' % out.exc_type
     if tails == 1 and level <= 0.5 and out.exc_type == 'ValueError' and 'bound is not' in msg:
       mech = 'one-sided-level-below-half'
+    elif out.exc_type == 'ValueError' and 'bound is not' in msg and degenerate_cost:
+      counters['degenerate_cost_raised'] += 1
+      return done(False)
     elif out.exc_type == 'ValueError' and 'bound is not' in msg and ref is not None:
       sc = ref.scale
       drops = [k for k in range(1, len(sc)) if sc[k] < sc[k - 1] * (1 - 1e-12)]
@@ -149,6 +153,20 @@ def run_case(spec):
       add('fixed-pointwise', 'fixed-cost-pointwise', 'fixed-cost pointwise difference differs from the observed treatment cost')
     if not np.allclose(np.asarray(cum['estimate'], dtype=float), np.cumsum(y_an), rtol=1e-12, atol=1e-12 * vol):
       add('fixed-cumulative', 'fixed-cost-cumulative', 'fixed-cost cumulative effect differs from the cumulated treatment cost')
+    return done()
+  if degenerate_cost:
+    # the cost regression has a constant (zero) regressor: fitted pre-period values are the pre-period mean, so
+    # the pointwise differences there are y - mean(y); counterfactual + pointwise must still give the observed
+    # series. Scale / df of a rank-deficient fit are not modelled, cumulative bounds are not judged.
+    counters['degenerate_cost_reports'] += 1
+    pwe = np.asarray(pw['estimate'], dtype=float)
+    want = y_pre - y_pre.mean()
+    if not np.allclose(pwe[:n_pre], want, rtol=1e-8, atol=1e-8 * float(np.abs(y_pre).max())):
+      k = int(np.argmax(np.abs(pwe[:n_pre] - want)))
+      add('residuals', 'pre-period-residuals', 'control never spends: pre-period pointwise cost difference on %s = %.10g, regression residual %.10g' % (d_pre[k], pwe[k], want[k]))
+    s_ = np.asarray(cf['estimate'], dtype=float) + pwe
+    if not np.allclose(s_, y_all, rtol=1e-10, atol=1e-10 * max(1.0, float(np.abs(y_all).max()))):
+      add('sum', 'counterfactual-plus-pointwise', 'counterfactual + pointwise differs from the observed treatment cost')
     return done()
   kappa = 1.0 + (ref.xbar / max(float(np.std(x_pre)), 1e-300)) ** 2
   rt = 1e-9 + 2e-15 * kappa
